@@ -78,6 +78,11 @@ class Sim:
         self.stats = {"pre_sent": 0, "pre_recv": 0, "pre_tasks": 0}
         self.seen_ids = set()
         self._unload_task = None
+        self.trigger_mark = None          # (event, occurrence, "iter"|"time", value): unload relative to a marked event
+        self.mark_counts = {}
+        self.loop_transports = []         # (owner overlay or None, transport) for every loop.create_datagram_endpoint
+        self.socket_baseline = None
+        self.app_jobs = []                # application-owned API coroutines kept in flight across the unload
 
     # ---- bookkeeping -------------------------------------------------------------------------------
     def owned_managers(self):
@@ -113,6 +118,32 @@ class Sim:
                              f"{self.loop.time() - self.unload_done:.1f} virtual s after unload() returned")
         if self.trigger_step is not None and self.step - 1 == self.trigger_step and self.unload_started is None:
             self.request_unload()
+
+    def mark(self, event, node):
+        """A scenario / hook announces an event of `node` (API call started, socket acquisition started, ...)."""
+        if node is None or node is not self.target or self.unload_started is not None:
+            return
+        j = self.mark_counts.get(event, 0)
+        self.mark_counts[event] = j + 1
+        tm = self.trigger_mark
+        if tm is None or tm[0] != event or tm[1] != j:
+            return
+        if tm[2] == "time":
+            self.loop.call_later(tm[3], self.request_unload)
+            return
+
+        def countdown(k):
+            if k <= 0:
+                self.request_unload()
+            else:
+                self.loop.call_soon(countdown, k - 1)
+        countdown(tm[3])
+
+    def node_of_overlay(self, ov):
+        for nd in self.nodes:
+            if nd.overlay is ov:
+                return nd
+        return None
 
     def on_receive(self, ep, packet):
         self.received.setdefault(ep, []).append(packet)
@@ -217,6 +248,17 @@ def install_patches():
         return transport
 
     es_mod.TunnelProtocol.open = tp_open
+
+    orig_enable = es_mod.TunnelExitSocket.enable
+
+    def enable(self):
+        sim = Sim.current
+        if sim is not None and not self.enabled:
+            sim.mark("enable", sim.node_of_overlay(self.overlay))
+        return orig_enable(self)
+
+    es_mod.TunnelExitSocket.enable = enable
+    _PATCHED["enable"] = orig_enable
     _PATCHED["tp_open"] = orig_open
     # LAN address discovery runs in a thread pool (real time): keep the periodic task, make its body deterministic
     ov_mod.get_providers = lambda: []
@@ -443,7 +485,88 @@ async def sc_attestation(sim, nodes, rng):
     sim.app_futures = pending
 
 
-SCENARIOS = {"attestation": sc_attestation, "intro": sc_intro, "discovery": sc_discovery, "dht": sc_dht, "tunnel": sc_tunnel}
+def silence_peers(sim, nodes, target, rng):
+    """Some / all other nodes stop answering (their endpoint is closed): requests towards them stay outstanding."""
+    mode = getattr(sim, "silence", "none")
+    others = [nd for nd in nodes if nd is not target]
+    if mode == "all":
+        quiet = others
+    elif mode == "half":
+        quiet = [nd for i, nd in enumerate(others) if i % 2 == 0]
+    else:
+        quiet = []
+    for nd in quiet:
+        nd.base.close()
+    return quiet
+
+
+def start_job(sim, coro):
+    async def run():
+        try:
+            return await coro
+        except (Exception, asyncio.CancelledError):  # noqa: BLE001
+            return None
+    j = asyncio.ensure_future(run())
+    sim.app_jobs.append(j)
+    return j
+
+
+INFLIGHT_APIS = {
+    "DHTCommunity": ["store_value", "store_value(signed)", "find_values", "find_nodes"],
+    "DHTDiscoveryCommunity": ["store_value", "store_value(signed)", "find_values", "find_nodes", "store_peer", "connect_peer"],
+    "TunnelCommunity": ["create_circuit", "remove_circuit(delayed)", "dht_peer_lookup"],
+    "HiddenTunnelCommunity": ["create_circuit", "remove_circuit(delayed)", "dht_peer_lookup", "create_introduction_point",
+                              "create_rendezvous_point", "estimate_swarm_size"],
+}
+
+
+async def sc_inflight(sim, nodes, rng):
+    """Public (async) API calls started by the APPLICATION and still in flight — at any of their await points — when
+    unload is requested and completes.  The coroutines belong to the application; nobody cancels them."""
+    target = sim.target if sim.target is not None else nodes[0]
+    ov = target.overlay
+    name = type(ov).__name__
+    await introduce(nodes)
+    await nap(0.5)
+    key = bytes(rng.getrandbits(8) for _ in range(20))
+    if "DHT" in name:
+        # warm-up: a regular lookup and a stored value, so that the caller holds store tokens and a value exists
+        for nd in nodes:
+            await aguarded(nd.overlay.find_nodes(key), 30)
+        await aguarded(nodes[-1 if target is not nodes[-1] else 0].overlay.store_value(key, b"warm-up"), 30)
+        await nap(1.0)
+    else:
+        from ipv8.messaging.anonymization.tunnel import PEER_FLAG_EXIT_BT
+        circ = guarded(ov.create_circuit, 1, exit_flags=[PEER_FLAG_EXIT_BT]) if target is not nodes[-1] else None
+        await nap(1.5)
+    silence_peers(sim, nodes, target, rng)
+    sim.mark("api", target)
+    other = next(nd for nd in nodes if nd is not target)
+    if "DHT" in name:
+        start_job(sim, ov.store_value(key, b"value-2"))
+        start_job(sim, ov.store_value(bytes(rng.getrandbits(8) for _ in range(20)), b"value-3", sign=True))
+        start_job(sim, ov.find_values(key))
+        start_job(sim, ov.find_nodes(bytes(rng.getrandbits(8) for _ in range(20))))
+        if hasattr(ov, "store_peer"):
+            start_job(sim, ov.store_peer())
+            start_job(sim, ov.connect_peer(other.overlay.my_peer.mid))
+    else:
+        from ipv8.messaging.anonymization.tunnel import PEER_FLAG_EXIT_BT
+        c2 = guarded(ov.create_circuit, 1, exit_flags=[PEER_FLAG_EXIT_BT])
+        if circ is not None:
+            guarded(ov.remove_circuit, circ.circuit_id, "application", remove_now=False, destroy=1)
+        start_job(sim, ov.dht_peer_lookup(other.overlay.my_peer.mid))
+        if hasattr(ov, "create_rendezvous_point"):
+            ih = b"\x21" * 20
+            guarded(ov.join_swarm, ih, 1, None, True)
+            start_job(sim, ov.create_introduction_point(ih))
+            start_job(sim, ov.create_rendezvous_point(ih))
+            start_job(sim, ov.estimate_swarm_size(ih, 1, 3))
+        del c2
+    await nap(14.0)
+
+
+SCENARIOS = {"inflight": sc_inflight, "attestation": sc_attestation, "intro": sc_intro, "discovery": sc_discovery, "dht": sc_dht, "tunnel": sc_tunnel}
 
 
 def scenario_families(cls_name):
@@ -456,6 +579,8 @@ def scenario_families(cls_name):
         fam.append("dht")
     if cls_name in ("TunnelCommunity", "HiddenTunnelCommunity"):
         fam.append("tunnel")
+    if cls_name in INFLIGHT_APIS:
+        fam.append("inflight")
     return fam
 
 
@@ -465,6 +590,55 @@ def tunnel_flags(role_index, n, hops):
     if role_index == n - 1:
         return base | {PEER_FLAG_EXIT_BT, PEER_FLAG_EXIT_IPV8}
     return base
+
+
+def count_socket_fds():
+    n = 0
+    try:
+        for fd in os.listdir("/proc/self/fd"):
+            try:
+                if os.readlink("/proc/self/fd/" + fd).startswith("socket:"):
+                    n += 1
+            except OSError:
+                pass
+    except OSError:
+        return None
+    return n
+
+
+def track_loop_sockets(sim):
+    """Every UDP socket opened through the loop is recorded when it is created (not when the owner stores it), and the
+    start of every acquisition is announced as a mark, attributed to an overlay through the calling frames."""
+    loop = sim.loop
+    orig = loop.create_datagram_endpoint
+
+    def owner_overlay():
+        f = sys._getframe(2)  # noqa: SLF001
+        depth = 0
+        while f is not None and depth < 25:
+            obj = f.f_locals.get("self")
+            if obj is not None:
+                if any(nd.overlay is obj for nd in sim.nodes):
+                    return obj
+                ov = getattr(obj, "overlay", None)
+                if ov is not None and any(nd.overlay is ov for nd in sim.nodes):
+                    return ov
+            f = f.f_back
+            depth += 1
+        return None
+
+    async def create_datagram_endpoint(*a, **k):
+        ov = owner_overlay()
+        if ov is not None:
+            sim.mark("acquire", sim.node_of_overlay(ov))
+        transport, protocol = await orig(*a, **k)
+        if ov is None:
+            cb = getattr(protocol, "received_cb", None)
+            ov = getattr(getattr(cb, "__self__", None), "overlay", None)
+        sim.loop_transports.append((ov, transport))
+        return transport, protocol
+
+    loop.create_datagram_endpoint = create_datagram_endpoint
 
 
 def run_scenario(spec, dry=False):
@@ -486,6 +660,7 @@ def run_scenario(spec, dry=False):
     outside = socket.socket(socket.AF_INET, socket.SOCK_DGRAM)
     outside.bind(("127.0.0.1", 0))
     sim.outside_port = outside.getsockname()[1]
+    track_loop_sockets(sim)
     try:
         loop.run_until_complete(_scenario_main(sim, cls, spec, rng, dry))
     finally:
@@ -496,9 +671,10 @@ def run_scenario(spec, dry=False):
                 t.cancel()
             if pending:
                 loop.run_until_complete(asyncio.gather(*pending, return_exceptions=True))
-            for _, tr in sim.transports:
+            for _, tr in sim.transports + sim.loop_transports:
                 if not tr.is_closing():
                     tr.close()
+            loop.run_until_complete(asyncio.sleep(0))
             loop.run_until_complete(asyncio.sleep(0))
         except Exception:  # noqa: BLE001
             pass
@@ -521,6 +697,8 @@ async def _scenario_main(sim, cls, spec, rng, dry):
         flags = tunnel_flags(i, n, sim.hops) if family == "tunnel" or hasattr(cls.settings_class, "peer_flags") else None
         nodes.append(build_node(sim, cls, spec["stack"], flags))
     target = nodes[spec["target"]]
+    sim.socket_baseline = count_socket_fds()
+    sim.silence = spec.get("silence", "none")
     if not dry:
         sim.target = target
         trig = spec["trigger"]
@@ -528,6 +706,8 @@ async def _scenario_main(sim, cls, spec, rng, dry):
             sim.trigger_step = trig[1]
         elif trig[0] == "time":
             loop.call_later(trig[1], sim.request_unload)
+        elif trig[0] == "mark":
+            sim.trigger_mark = tuple(trig[1:])
     await SCENARIOS[family](sim, nodes, rng)
     if dry:
         for nd in nodes:
@@ -563,6 +743,9 @@ async def _scenario_main(sim, cls, spec, rng, dry):
             await aguarded(other.overlay.unload())
     await nap(TWO_HOURS)
     final_checks(sim, target)
+    for j in sim.app_jobs:
+        if not j.done():
+            j.cancel()
 
 
 def late_datagrams(sim, target, nodes, rng, replay_only=False):
@@ -653,8 +836,8 @@ def scan_coroutines(sim, target):
     ov = target.overlay
     owned = sim.owned_managers()
     for task in asyncio.all_tasks(sim.loop):
-        if task.done() or task is sim._unload_task:  # noqa: SLF001
-            continue
+        if task.done() or task is sim._unload_task or any(task is j for j in sim.app_jobs):  # noqa: SLF001
+            continue        # application-owned API calls are judged by what they make the overlay do (sends), not here
         coro = task.get_coro()
         depth = 0
         while coro is not None and depth < 20:
@@ -694,6 +877,19 @@ def final_checks(sim, target):
                         f"{type(ov).__name__}: an exit socket's UDP transport (circuit {getattr(owner, 'circuit_id', '?')}) is still "
                         f"open two virtual hours after unload() returned")
             break
+    # sockets as the event loop / the OS see them, whatever the owning object remembers
+    for owner_ov, tr in sim.loop_transports:
+        if owner_ov is ov and not tr.is_closing():
+            sim.violate("exit_socket:transport-open-after-unload",
+                        f"{type(ov).__name__}: a UDP socket it opened ({tr.get_extra_info('sockname')}) is still open two "
+                        f"virtual hours after unload() returned (no object refers to it any more or it was never closed)")
+            break
+    now = count_socket_fds()
+    if sim.socket_baseline is not None and now is not None and now > sim.socket_baseline \
+            and all(v[0] != "exit_socket:transport-open-after-unload" for v in sim.violations):
+        sim.violate("os:socket-open-after-unload",
+                    f"{type(ov).__name__}: {now - sim.socket_baseline} more OS-level socket(s) open than before the run, two "
+                    f"virtual hours after every overlay of the run was unloaded")
 
 
 # ======================================================================================================
@@ -1151,6 +1347,9 @@ def scenario_specs(ctx: Ctx, rng, per_combo_steps, per_combo_times, steps_cache)
     for cls in classes:
         for family in scenario_families(cls):
             for stack in STACKS:
+                if family == "inflight":
+                    yield from inflight_specs(cls, stack, rng, per_combo_steps is None)
+                    continue
                 hop_opts = [1, 2] if family == "tunnel" else [1]
                 for hops in hop_opts:
                     n = 3 if hops == 1 else 4
@@ -1173,6 +1372,39 @@ def scenario_specs(ctx: Ctx, rng, per_combo_steps, per_combo_times, steps_cache)
                     for _ in range(per_combo_times):
                         yield {**base, "target": rng.randrange(n), "trigger": ["time", round(rng.uniform(0.0, 16.0), 3)]}
                     yield {**base, "target": rng.randrange(n), "trigger": ["idle"]}
+                    if family == "tunnel":
+                        # unload landing at every loop iteration after the exit node starts opening a socket
+                        deep = per_combo_steps is None
+                        if hops == 1 or deep:
+                            for j in (0, 1):
+                                for it in range(16 if deep else 8):
+                                    yield {**base, "target": n - 1, "trigger": ["mark", "acquire", j, "iter", it]}
+                            for it in range(8 if deep else 4):
+                                yield {**base, "target": n - 1, "trigger": ["mark", "enable", 0, "iter", it]}
+
+
+def inflight_specs(cls, stack, rng, deep):
+    """Application-owned API calls in flight: unload k loop iterations / t seconds after the calls were started."""
+    n = 4 if "DHT" in cls else 3
+    base = {"cls": cls, "stack": stack, "family": "inflight", "nodes": n, "hops": 1}
+    modes = ["all", "half", "none"]
+
+    def tgt():
+        return rng.randrange(n) if "DHT" in cls else 0
+    if deep:
+        for mode in modes:
+            for it in range(0, 30):
+                yield {**base, "seed": rng.getrandbits(30), "silence": mode, "target": tgt(), "trigger": ["mark", "api", 0, "iter", it]}
+            for _ in range(10):
+                yield {**base, "seed": rng.getrandbits(30), "silence": mode, "target": tgt(),
+                       "trigger": ["mark", "api", 0, "time", round(rng.uniform(0.0, 13.0), 3)]}
+    else:
+        for _ in range(6):
+            yield {**base, "seed": rng.getrandbits(30), "silence": rng.choice(modes), "target": tgt(),
+                   "trigger": ["mark", "api", 0, "iter", rng.randrange(0, 30)]}
+        for _ in range(5):
+            yield {**base, "seed": rng.getrandbits(30), "silence": rng.choice(modes), "target": tgt(),
+                   "trigger": ["mark", "api", 0, "time", round(rng.uniform(0.0, 13.0), 3)]}
 
 
 def run_one_scenario(ctx: Ctx, spec):
@@ -1181,12 +1413,15 @@ def run_one_scenario(ctx: Ctx, spec):
     ctx.count(f"scenario:{spec['cls']}")
     ctx.count(f"family:{spec['family']}")
     ctx.count(f"stack:{spec['stack']}")
-    ctx.count(f"trigger:{trig[0]}")
+    ctx.count(f"trigger:{trig[0]}" + (f":{trig[1]}:{trig[3]}" if trig[0] == "mark" else ""))
+    if spec["family"] == "inflight":
+        ctx.count(f"inflight-silence:{spec.get('silence')}")
+        ctx.extra["api_inflight"] = INFLIGHT_APIS
     ctx.count("unload-with-pending-tasks" if st["pre_tasks"] else "unload-without-pending-tasks")
     ctx.count("target-traffic:%s" % ("none" if st["pre_sent"] + st["pre_recv"] == 0 else
                                      "1-9" if st["pre_sent"] + st["pre_recv"] < 10 else "10+"))
     nontrivial = (st["pre_sent"] + st["pre_recv"] > 0) or st["pre_tasks"] > 0
-    ctx.case((spec["cls"], spec["stack"], spec["family"], spec["target"], tuple(trig), spec["hops"]), nontrivial)
+    ctx.case((spec["cls"], spec["stack"], spec["family"], spec["target"], tuple(trig), spec["hops"], spec.get("silence")), nontrivial)
     for sig, what in viol:
         ctx.count("violation:" + sig)
         ctx.oracle_fail(sig, f"[{spec['cls']} on {spec['stack']} endpoint, scenario {spec['family']}, node {spec['target']}, "
